@@ -18,7 +18,7 @@ impl E2Part for Flavours {
     }
     fn cases(&self, tier: Tier) -> usize {
         match tier {
-            Tier::Quick => 1_600,
+            Tier::Quick => 3_200,
             Tier::Thorough => 32_000,
         }
     }
